@@ -106,6 +106,25 @@ def palias(p):
     return p[3] if len(p) > 3 and p[3] else camel(p[0])
 
 
+# ---- host objects with permissive / hostile comparison and truthiness protocols ----------------------
+def _raising(*a, **k):
+    raise RuntimeError("hostile protocol method called")
+
+
+HOSTILE_PROTOCOLS = {
+    1: {"__eq__": lambda s, o: True, "__ne__": lambda s, o: False, "__hash__": lambda s: 1},      # like unittest.mock.ANY
+    2: {"__eq__": _raising, "__ne__": _raising, "__hash__": lambda s: 2},
+    3: {"__bool__": lambda s: False, "__len__": lambda s: 0},
+    4: {"__bool__": _raising, "__eq__": lambda s, o: False, "__ne__": lambda s, o: False, "__hash__": lambda s: 1},
+    5: {"__eq__": lambda s, o: NotImplemented, "__ne__": lambda s, o: False, "__hash__": lambda s: 5, "__len__": _raising},
+}
+# one instance per (protocol, lattice class): an instance of a subclass that adds nothing but the protocol methods,
+# so for every type check it IS a value of the lattice class
+HOSTILE = {k: {c: type("%s_p%d" % (CLASS_NAMES[c], k), (CLASSES[c],), dict(m))() for c in range(1, NCLS)}
+           for k, m in HOSTILE_PROTOCOLS.items()}
+_hostile_mode = [0]
+
+
 # ---- values -------------------------------------------------------------------------
 def py_value(v):
     if v == "null":
@@ -113,6 +132,8 @@ def py_value(v):
     if v == "marker":
         return utils.NO_VALUE
     if v[0] == "obj":
+        if _hostile_mode[0]:
+            return HOSTILE[_hostile_mode[0]][v[1]]
         return INST[v[1]]
     if v[0] == "int":
         return v[1]
@@ -128,6 +149,10 @@ def value_code(o):
     for c, inst in INST.items():
         if o is inst:
             return ["obj", c]
+    for k in HOSTILE:
+        for c, inst in HOSTILE[k].items():
+            if o is inst:
+                return ["obj", c]
     if isinstance(o, bool):
         return None
     if isinstance(o, int):
@@ -601,6 +626,14 @@ def run_call(family, call, ctx=None):
     if ctx is None:
         ctx, _ = build_chain(family)
     log, table = [], {}
+    _hostile_mode[0] = call.get("hostile", 0)
+    try:
+        return _run_call(call, ctx, log, table)
+    finally:
+        _hostile_mode[0] = 0
+
+
+def _run_call(call, ctx, log, table):
     args = tuple(build_arg(a, log, table) for a in call["args"])
     kwargs = {k: py_value(v) for k, v in call["kwargs"]}
     has_recv = call["recv"] is not None
@@ -666,6 +699,14 @@ def run_call_text(family, call, ctx, text):
     if len(fnode.args) != len(call["args"]):
         return None
     log, table, values = [], {}, {}
+    _hostile_mode[0] = call.get("hostile", 0)
+    try:
+        return _run_call_text(call, node, fnode, has_recv, ctx, log, table, values)
+    finally:
+        _hostile_mode[0] = 0
+
+
+def _run_call_text(call, node, fnode, has_recv, ctx, log, table, values):
     for a, e in zip(call["args"], fnode.args):
         table[id(e)] = a
         if a[0] == "expr":
@@ -1095,7 +1136,10 @@ def gen_call(rng, family):
         if k not in seen:
             seen.add(k)
             pk.append([k, v])
-    return {"recv": recv, "args": args, "kwargs": pk}
+    out = {"recv": recv, "args": args, "kwargs": pk}
+    if rng.random() < 0.25:
+        out["hostile"] = rng.choice(sorted(HOSTILE_PROTOCOLS))      # the argument objects carry a hostile comparison / truthiness protocol
+    return out
 
 
 def family_features(family, call, obs):
@@ -1133,6 +1177,8 @@ def family_features(family, call, obs):
         feats.add("keyword")
     if call["kwargs"]:
         feats.add("pykwargs")
+    if call.get("hostile"):
+        feats.add("hostile-values")
     return feats
 
 
@@ -1478,7 +1524,10 @@ def gen_call_dense(rng, family):
     if rng.random() < 0.2 and args and args[0][0] == "expr" and by_keyword == npos:
         recv = args[0][2]
         args = args[1:]
-    return {"recv": recv, "args": args, "kwargs": kwargs}
+    out = {"recv": recv, "args": args, "kwargs": kwargs}
+    if rng.random() < 0.2:
+        out["hostile"] = rng.choice(sorted(HOSTILE_PROTOCOLS))
+    return out
 
 
 def shuffled(rng, family):
